@@ -30,6 +30,8 @@ type Case struct {
 	C       int    `json:"cols"`
 	Base    []int  `json:"matrix_row_major"`
 	Graded  int    `json:"graded_shift,omitempty"` // input is D·A·D⁻¹, D=diag(1,2^s,2^2s)
+	Exp2    int    `json:"exp2,omitempty"`         // input is matrix_row_major · 2^exp2 (ill-conditioned families)
+	Family  string `json:"family,omitempty"`       // "", "spd-wide", "ill-conditioned", "blocks6"
 }
 
 func (cs *Case) has(tok string) bool {
@@ -46,8 +48,53 @@ func (cs *Case) input() lat.Mat {
 	if cs.Graded != 0 {
 		a = lat.Graded(a, cs.Graded)
 	}
+	if cs.Exp2 != 0 {
+		for i := range a.V {
+			a.V[i] = math.Ldexp(a.V[i], cs.Exp2) // exact: |entries| < 2^53
+		}
+	}
 	return a
 }
+
+// tallClassOf: structural class of a tall input; the ill-conditioned families are full rank by
+// construction (exact Gram determinant, lat.CondUpper) and their scaled integers would
+// overflow the int64 determinant of tallClass.
+func (cs *Case) tallClassOf() string {
+	if cs.Family == "ill-conditioned" {
+		return "ill-conditioned"
+	}
+	return tallClass(cs.Base, cs.R, cs.C)
+}
+
+// condUpperCached memoises lat.CondUpper for the matrix of the previous call (the same matrix
+// runs through several option sets and element types in a row); compared by content.
+var condLast struct {
+	base []int
+	m, n int
+	k    float64
+}
+
+func condUpperCached(base []int, m, n int) float64 {
+	if condLast.m == m && condLast.n == n && len(condLast.base) == len(base) {
+		same := true
+		for i, v := range base {
+			if condLast.base[i] != v {
+				same = false
+				break
+			}
+		}
+		if same {
+			return condLast.k
+		}
+	}
+	condLast.base = append(condLast.base[:0], base...)
+	condLast.m, condLast.n = m, n
+	condLast.k = lat.CondUpper(base, m, n)
+	return condLast.k
+}
+
+// unit roundoff of float64
+const unitRoundoff = 1.1102230246251565e-16
 
 // budgetFor is the C20 verdict budget; budgetStage1 is a 100x smaller first-stage budget
 // (ordinary runs use < 1e4 ticks): a case exceeding it is re-run under the full budget.
@@ -157,6 +204,8 @@ type outcome struct {
 	class    string
 	trivial  bool
 	harnessE string
+	// gramSchmidt: orthogonality defect relative to its tolerance, condition bound (statistics)
+	gsMargin, gsCond float64
 }
 
 func runCase(cs *Case, bud int64) (out outcome) {
@@ -290,7 +339,7 @@ func runCase(cs *Case, bud int64) (out outcome) {
 	// ------------------------------------------------------------------ gramSchmidt
 	case "gramSchmidt":
 		m := cs.R
-		out.class = tallClass(cs.Base, m, n)
+		out.class = cs.tallClassOf()
 		out.trivial = isUpperTriangular(cs.Base, m, n)
 		var Q, R ad.Matrix
 		var err error
@@ -331,16 +380,23 @@ func runCase(cs *Case, bud int64) (out outcome) {
 				rt.Set(i, j, r.At(i, j))
 			}
 		}
-		if d := lat.OrthoDefect(q); !(d <= 1e-8) {
-			f.add("orthogonality-Q", "‖QᵀQ−I‖=%.3g", d)
+		// modified Gram–Schmidt loses orthogonality like u·cond(A) (Björck 1967), the classical
+		// recurrence like u·cond(A)²: the tolerance is 1e3·u·cond with cond an upper bound of
+		// cond_2(A) from the exact Gram matrix (reference side only)
+		kappa := condUpperCached(cs.Base, m, n)
+		otol := 1e3 * unitRoundoff * kappa
+		d := lat.OrthoDefect(q)
+		if !(d <= otol) {
+			f.add("orthogonality-Q", "‖QᵀQ−I‖=%.3g (tol 1e3·u·cond=%.3g, cond<=%.3g)", d, otol, kappa)
 		}
+		out.gsMargin, out.gsCond = d/otol, kappa
 		if d := lat.Fro(lat.Sub(lat.Mul(q, rt), A)); !(d <= tol) {
 			f.add("reconstruction", "‖Q·R−A‖=%.3g (tol %.3g)", d, tol)
 		}
 	// ------------------------------------------------------------------ bidiagonalisation
 	case "bidiag":
 		m := cs.R
-		out.class = tallClass(cs.Base, m, n)
+		out.class = cs.tallClassOf()
 		out.trivial = isBidiagonal(cs.Base, m, n)
 		cu, cv := cs.has("U"), cs.has("V")
 		args := []interface{}{householderBidiagonalization.ComputeU{Value: cu}, householderBidiagonalization.ComputeV{Value: cv}}
@@ -369,7 +425,7 @@ func runCase(cs *Case, bud int64) (out outcome) {
 	// ------------------------------------------------------------------ svd
 	case "svd":
 		m := cs.R
-		out.class = tallClass(cs.Base, m, n)
+		out.class = cs.tallClassOf()
 		out.trivial = isDiagonalRect(cs.Base, m, n)
 		cu, cv := cs.has("U"), cs.has("V")
 		args := []interface{}{svd.ComputeU{Value: cu}, svd.ComputeV{Value: cv}}
@@ -395,7 +451,7 @@ func runCase(cs *Case, bud int64) (out outcome) {
 			return
 		}
 		checkUBV(f, A, S, U, V, cu, cv, "diagonal", func(i, j int) bool { return i != j }, cs)
-		if S != nil && len(*f) == 0 {
+		if S != nil && len(*f) == 0 && cs.Exp2 == 0 {
 			s := get(S)
 			var sv []float64
 			for i := 0; i < n; i++ {
@@ -555,7 +611,14 @@ func runCase(cs *Case, bud int64) (out outcome) {
 		var V ad.Matrix
 		var err error
 		pan, over := protect(bud, func() {
-			if stale {
+			if cs.has("Buf") {
+				// caller-supplied result buffers, first use (no warm-up call)
+				is := &eigensystem.InSitu{Eigenvalues: ad.NullDenseVector(t, n)}
+				if vec {
+					is.Eigenvectors = ad.NullDenseMatrix(t, n, n)
+				}
+				ev, V, err = eigensystem.Run(a, append(append([]interface{}{}, args...), is)...)
+			} else if stale {
 				is := &eigensystem.InSitu{}
 				is.QrAlgorithm.InitializeH = true
 				is.QrAlgorithm.InitializeU = true
@@ -588,9 +651,9 @@ func runCase(cs *Case, bud int64) (out outcome) {
 			v := get(V)
 			vp = &v
 		}
-		split := func() bool {
+		splitWith := func(qargs ...interface{}) bool {
 			var T ad.Matrix
-			pan, over := protect(bud, func() { T, _, _ = qrAlgorithm.Run(mk(e, A)) })
+			pan, over := protect(bud, func() { T, _, _ = qrAlgorithm.Run(mk(e, A), qargs...) })
 			if pan != nil || over || T == nil {
 				return false
 			}
@@ -601,6 +664,12 @@ func runCase(cs *Case, bud int64) (out outcome) {
 				}
 			}
 			return false
+		}
+		// with the default epsilon and with the epsilon of the case (eigensystem may or may not
+		// forward it): either way this only decides whether a failing eigenvector check on a
+		// repeated root is skipped
+		split := func() bool {
+			return splitWith() || cs.has("Eps") && splitWith(qrAlgorithm.Epsilon{Value: 1e-12})
 		}
 		checkEigen(f, A, getVec(ev), vp, &sp, graded, split, &out.skipped)
 	// ------------------------------------------------------------------ msqrt / msqrtInv
